@@ -102,7 +102,9 @@ def build_one(spec, flavour):
         flags = list(BASE_FLAGS)
         if spec.get('std'):
             flags[0] = '-std=' + spec['std']
-        if spec.get('sanitize', True):
+        if spec.get('fuzzer'):
+            flags += ['-fsanitize=fuzzer,address,undefined', '-fno-sanitize-recover=undefined', '-DHV_FUZZER']
+        elif spec.get('sanitize', True):
             flags += SAN_FLAGS
         if spec.get('opt'):
             flags[1] = spec['opt']
@@ -198,6 +200,36 @@ def run_job(job, binpath, prop, tier, seed, idx, known_ids, budget_s):
             st = None
     return dict(job=job, idx=idx, rc=rc, out=out, stats=st, replay=rout if os.path.exists(rout) else None,
                 pending=pend if os.path.exists(pend) else None, wall=time.time() - t0, binpath=binpath, seed=jseed)
+
+
+def run_fuzz(job, binpath, prop, seed, idx, known_ids):
+    rundir = os.path.join(BUILD, 'run', '%s-fuzz-%d-%d' % (prop, os.getpid(), idx))
+    corpus = os.path.join(rundir, 'corpus'); arts = os.path.join(rundir, 'artifacts')
+    os.makedirs(corpus, exist_ok=True); os.makedirs(arts, exist_ok=True)
+    seeddir = os.path.join(VERIF, 'corpus', job['bin'].replace('fuzz_', 'walk_'))
+    env = dict(os.environ, HV_PROP=prop, HV_KNOWN=','.join(known_ids), HV_STATS=os.path.join(rundir, 'stats.json'),
+               ASAN_OPTIONS='detect_leaks=0:abort_on_error=0:symbolize=1', UBSAN_OPTIONS='print_stacktrace=1:halt_on_error=1')
+    cmd = [binpath, corpus] + ([seeddir] if os.path.isdir(seeddir) else []) + ['-runs=%d' % job['runs'], '-seed=%d' % ((seed * 7919 + idx) % 2147483647 or 1), '-max_len=%d' % job.get('max_len', 1024),
+           '-artifact_prefix=' + arts + '/', '-print_final_stats=1', '-timeout=20', '-rss_limit_mb=3000', '-len_control=20']
+    t0 = time.time()
+    try:
+        r = subprocess.run(cmd, stdout=subprocess.PIPE, stderr=subprocess.STDOUT, text=True, env=env, timeout=job.get('timeout', 3000), errors='replace')
+        out, rc = r.stdout, r.returncode
+    except subprocess.TimeoutExpired as e:
+        out, rc = (e.stdout or b'').decode(errors='replace') if isinstance(e.stdout, bytes) else (e.stdout or ''), 'timeout'
+    execs = 0
+    m = re.search(r'stat::number_of_executed_units:\s*(\d+)', out)
+    if m:
+        execs = int(m.group(1))
+    crashes = sorted(f for f in os.listdir(arts) if f.startswith('crash-') or f.startswith('leak-'))
+    timeouts = sorted(f for f in os.listdir(arts) if f.startswith('timeout-'))
+    st = None
+    if os.path.exists(os.path.join(rundir, 'stats.json')):
+        try:
+            st = json.load(open(os.path.join(rundir, 'stats.json')))
+        except Exception:
+            st = None
+    return dict(job=job, rc=rc, out=out, execs=execs, crashes=[os.path.join(arts, f) for f in crashes], timeouts=[os.path.join(arts, f) for f in timeouts], wall=time.time() - t0, stats=st, rundir=rundir)
 
 
 def replay(binpath, prop, path, known_ids, extra_args, timeout=120):
@@ -320,6 +352,37 @@ def main():
     os.makedirs(os.path.join(OUT, 'evidence'), exist_ok=True)
     violations = []
     undecided = []
+    # coverage-guided campaigns (thorough tier): same byte format, same oracles inside LLVMFuzzerTestOneInput
+    fuzz_runs = []
+    fuzz_jobs = props.PROPS[prop].get('fuzz', []) if tier == 'thorough' else []
+    if fuzz_jobs:
+        fspecs = [props.UNITS[j['bin']] for j in fuzz_jobs] + [props.UNITS[j['replay_bin']] for j in fuzz_jobs]
+        fbins = build_all(fspecs, ['single'])
+        with ThreadPoolExecutor(max_workers=NCPU) as ex:
+            futs = [ex.submit(run_fuzz, j, fbins[(j['bin'], 'single')], prop, seed, k, known_ids) for k, j in enumerate(fuzz_jobs)]
+            fuzz_runs = [fu.result() for fu in futs]
+        for fr in fuzz_runs:
+            j = fr['job']
+            for n, art in enumerate(fr['crashes'][:3]):
+                dst = os.path.join(OUT, 'replays', '%s-%s-single-fuzz%d.case' % (prop, j['replay_bin'], n))
+                shutil.copyfile(art, dst)
+                fails, last = 0, ''
+                for _ in range(3):
+                    rc, out = replay(fbins[(j['replay_bin'], 'single')], prop, dst, known_ids, [])
+                    last = out
+                    fails += rc != 0
+                if fails == 3:
+                    m = re.search(r'REPLAY-FAIL (.*)', last)
+                    violations.append(dict(name=j['bin'], replay=dst, message=m.group(1) if m else 'crash found by libFuzzer reproduces', output=last[-3000:]))
+                else:
+                    log('fuzzer artifact %s does not reproduce (%d/3)' % (art, fails))
+            if fr['timeouts'] and props.PROPS[prop].get('hang_is_violation'):
+                dst = os.path.join(OUT, 'replays', '%s-%s-single-fuzzhang.case' % (prop, j['replay_bin']))
+                shutil.copyfile(fr['timeouts'][0], dst)
+                rc, out = replay(fbins[(j['replay_bin'], 'single')], prop, dst, known_ids, [], timeout=60)
+                if rc == 'timeout':
+                    violations.append(dict(name=j['bin'], replay=dst, message='the library does not return (hang) on this case', output=''))
+            shutil.rmtree(fr['rundir'], ignore_errors=True)
     agg = dict(evaluations=0, distinct_nontrivial=0, classes={}, known={}, samples=[], binaries=[])
     rule = ''
     for r in runs:
@@ -374,6 +437,13 @@ def main():
             agg.setdefault('not_reproducible', []).append(name)
             undecided.append((name, r))
 
+    for fr in fuzz_runs:
+        agg['evaluations'] += fr['execs']
+        if fr['stats']:
+            agg['distinct_nontrivial'] += fr['stats'].get('distinct_nontrivial', 0)
+            for k, v in fr['stats'].get('known', {}).items():
+                agg['known'][k] = agg['known'].get(k, 0) + v
+        agg['binaries'].append(dict(binary=fr['job']['bin'], flavour='single', engine='libFuzzer', executions=fr['execs'], rc=fr['rc'], wall_s=round(fr['wall'], 1), crashes=len(fr['crashes']), timeouts=len(fr['timeouts'])))
     wall = time.time() - t0
     spec = props.PROPS[prop]
     ev = dict(property_id=prop, tier=tier, seed=seed, level=spec.get('level', 'exploration'),
